@@ -9,6 +9,9 @@ PROP = dict(
         "request, final lock table)",
         "the yield-point scheduler of harness/cmd/obs-lock (one goroutine runs at a time; parks at lock.enqueued and lock.select.done; "
         "lock.grant is a notification under the locker mutex) and the add-only hook lines in lock.go",
+        "free-running stress search in obs-lock (all cores, random cancellations, timing perturbed through the hooks and through the "
+        "logger the locker calls under its mutex): non-deterministic, reports only violations observed on the real code; it widens what a "
+        "seeded change can hit between yield points and is not part of the model/implementation tie",
         "Go runtime: which branch a select takes when both channels are ready is not controlled by the scheduler; the model enables "
         "both branches and the trace records the one taken",
     ],
